@@ -335,6 +335,7 @@ class _SaveLoad(C.Stream):
         f.append("depth=%d" % depth)
         sts = {t["res"]["status"] for t in R.iter_tests(d)}
         f += ["status:%s" % s for s in sorted(map(str, sts))]
+        f += R.odd_field_features(d)
         return f
 
     @staticmethod
@@ -413,7 +414,8 @@ class JsonStream(_SaveLoad):
     def gen(self, rng, i):
         mode = rng.choice(["wild", "wild", "safe", "plain"])
         odd = rng.random() < 0.35
-        d = R.gen_report(rng, mode, odd=odd, none_times=0.02 if odd else 0, zero_times=0.02 if odd else 0)
+        d = R.gen_report(rng, mode, odd=odd, none_times=0.02 if odd else 0, zero_times=0.02 if odd else 0,
+                         odd_fields=rng.random() < 0.35)
         r = rng.random()
         if r < 0.3:
             plant(rng, d, "format-quote", rng.choice([1, 1, 3]))
@@ -479,7 +481,8 @@ class XmlStream(_SaveLoad):
             self._plant(rng, d)
             return {"report": d, "opts": opts, "via": via}
         odd = rng.random() < 0.3
-        d = R.gen_report(rng, mode, odd=odd, none_times=0.01 if odd else 0, zero_times=0.02 if odd else 0)
+        d = R.gen_report(rng, mode, odd=odd, none_times=0.01 if odd else 0, zero_times=0.02 if odd else 0,
+                         odd_fields=rng.random() < 0.4)
         if mode != "wild" and rng.random() < 0.3:
             plant(rng, d, "format-quote", rng.choice([1, 1, 3]))
         return {"report": d, "opts": opts, "via": via}
@@ -1318,14 +1321,34 @@ WITNESSES = [
     _w(check_details=""),             # C09/xml/empty-text-loads-None (optional text)
     _w(title=""),
 ]
-XmlStream.corpus = WITNESSES
+
+
+def _odd_witness(end, status):
+    """a report holding a result of EVERY kind (session setup / teardown, suite setup / teardown, test) whose end time and
+    status are set independently: (end set, no status) = a result being finalised; (no end, status) = a tool's report"""
+    d = _w()["report"]
+    t = [R.T0 + 10]
+
+    def res():
+        t[0] += 10
+        st = {"desc": "s", "start": t[0] + 1, "end": t[0] + 2, "entries": [{"k": "log", "level": "info", "msg": "m", "t": t[0] + 1}]}
+        return {"steps": [st], "start": t[0], "end": (t[0] + 5) if end else None, "status": status, "details": None}
+    d["setup"], d["teardown"] = res(), res()
+    su = d["suites"][0]
+    su["setup"], su["teardown"] = res(), res()
+    su["tests"][0]["res"] = res()
+    return {"report": d}
+
+
+ODD_WITNESSES = [_odd_witness(True, None), _odd_witness(False, "passed"), _odd_witness(False, "failed")]
+XmlStream.corpus = WITNESSES + ODD_WITNESSES
 JsonStream.corpus = WITNESSES + [
     # a text quoting the JavaScript prefix of report.js, saved WITHOUT the prefix (and with it)
     dict(_w(msg="report.js starts with: var reporting_data = {"), opts={"jc": False, "pretty": False}, via="backend"),
     dict(_w(title="var reporting_data = "), opts={"jc": False, "pretty": True}, via="loader"),
     dict(_w(msg="var reporting_data = var reporting_data = "), opts={"jc": True, "pretty": False}, via="loader"),
     _w(msg="\ud83d\ude00"),           # C09/json/split-surrogate-pair-merged (two code points, not U+1F600)
-]
+] + ODD_WITNESSES
 
 
 def _save(backend="json", path=0, jc=True, pretty=False, reuse=True, how="backend", via="backend"):
